@@ -29,6 +29,9 @@ class _BarePackage(types.ModuleType):
         import re
 
         d = self.__path__[0]
+        if os.path.exists(os.path.join(d, name + '.py')) or os.path.isdir(os.path.join(d, name)):
+            # a submodule of that name wins over a definition of the same name inside it (graph.beamline is the module)
+            return importlib.import_module(f'{self.__name__}.{name}')
         pat = re.compile(rf'^(class|def)\s+{re.escape(name)}\b|^{re.escape(name)}\s*[:=]', re.M)
         for fn in sorted(os.listdir(d)):
             if fn.endswith('.py') and fn != '__init__.py':
